@@ -4,7 +4,7 @@ SPEC = {
     "gen": ["atomicconsts"],
     "streams": [
         {"name": "failtx", "cmd": "failtx",
-         "args": {"quick": ["-cases", "260", "-per", "65"], "thorough": ["-cases", "5000", "-per", "100"]},
+         "args": {"quick": ["-cases", "320", "-per", "80"], "thorough": ["-cases", "5000", "-per", "100"]},
          "search_args": ["-cases", "3000", "-per", "100"]},
     ],
     "trusted_base": [
@@ -13,7 +13,7 @@ SPEC = {
         "vm_compute evaluation of Verif.Atomic.Model.deliver (through Atomic/Corr.v) on the abstracted cases (no extraction)",
         "harness/cmd/gen atomicconsts (go/ast reader of the order of gas charges, NewTransaction(), Commit(), handle writes, ctx-built wrappers and error returns in registry registerEntity/deregisterEntity/registerNode/registerRuntime and roothash submitMsg, submitEvidence)",
         "coq/Ledger/TxAtomic.v of the C05 builder (failed_tx_effect_staking is restated from it)",
-        "modelled, not verified: registry registerEntity/deregisterEntity/registerNode/registerRuntime and roothash submitMsg, submitEvidence are ported step by step with abstract keys/records/validation verdicts (storage errors after a handle write are modelled as not happening); all OTHER handlers are arbitrary programs over the context interface, NOT ports; events, block gas accountant, system transactions, upgrade checks are not modelled",
+        "modelled, not verified: registry registerEntity/deregisterEntity/registerNode/registerRuntime, roothash submitMsg/submitEvidence, staking addEscrow/reclaimEscrow/allow/withdraw and vault create/authorizeAction/cancelAction are ported step by step with abstract keys/records/validation verdicts (storage errors after a handle write are modelled as not happening); all OTHER handlers are arbitrary programs over the context interface, NOT ports; events, block gas accountant, system transactions, upgrade checks are not modelled",
     ],
     "assumptions": [
         "block gas limit: one history in four runs with MaxBlockGas = 80000 and blocks filled to within a few thousand gas of it; there a failed transaction legitimately consumes block gas, so LATER companions may fail for lack of block gas only in the world with the transaction (anything else is a violation); the displaced companions' keys (accounts 0/1, total supply) are then allowed to differ and the fee-flow sums are not checked",
@@ -25,5 +25,5 @@ SPEC = {
 MANIFEST = {
     "technique": "Coq proof (generic atomicity of the multiplexer pipeline and of the overlay transaction layer for arbitrary handler programs, by induction over programs) + twin-replica differential execution of the real multiplexer on full state dumps",
     "level_text": "Theorems in coq/Props/C08.v hold for all states, all transactions and ARBITRARY handler programs (any reads, writes, removals, gas use, nested NewTransaction layers): an uncommitted transaction layer is discarded literally, a committed one applies exactly its body's writes; authentication writes only fee and nonce+1; a transaction rejected up to authentication changes nothing; a failing delivered transaction leaves exactly the pre-state or exactly the post-authentication state PROVIDED its handler is atomic (proved for every handler following 'validate first, write last' or 'fallible writes inside NewTransaction/Commit'; proved FALSE without the premise, because the multiplexer never rolls back); CheckTx and EstimateGas never change the delivery state. The claim about the real handlers rests on the twin-replica stream: for every generated failing transaction the real multiplexer executes the same block with and without it from identical histories and the two complete MKVS dumps may differ only at the signer's account (nonce+1, balance-fee) and the fee-flow keys, or not at all when authentication did not pass.",
-    "level_note": "T gives the generic mux/overlay atomicity and the authentication-write lemma for arbitrary handler programs, unconditional failed_tx_effect theorems for the ported registry handlers (registerEntity, deregisterEntity, registerNode, registerRuntime) and roothash submitMsg / submitEvidence (order of steps tied to the source by the go/ast generator), and the staking/governance-deposit handlers through the C05 ledger model; for ALL OTHER handlers (governance votes, roothash commit, vault, key manager, beacon, registry unfreeze/proveFreshness) the claim rests on the twin-replica stream (sampled, not proved). Trusted: Coq kernel; muxdrv and the failtx oracle; the harness-side authentication predicate. Not modelled: events, block gas limit, system transactions, runtime-dependent handlers beyond their early failure paths (a compute runtime with one worker is registered, but no executor commitments are produced, so roothash commit/finalization paths end at their early failures).",
+    "level_note": "T gives the generic mux/overlay atomicity and the authentication-write lemma for arbitrary handler programs, unconditional failed_tx_effect theorems for the ported registry handlers (registerEntity, deregisterEntity, registerNode, registerRuntime) and roothash submitMsg / submitEvidence (order of steps tied to the source by the go/ast generator), and the staking/governance-deposit handlers through the C05 ledger model; (Atomic/GenCheck.v lists every transaction method read from the ExecuteTx switches as ported or twin-only; a new method in neither list breaks a proof obligation) for ALL OTHER handlers (governance submit/vote, roothash executor commit, key manager, beacon, registry unfreeze/proveFreshness, staking amend-commission) the claim rests on the twin-replica stream (sampled, not proved). Trusted: Coq kernel; muxdrv and the failtx oracle; the harness-side authentication predicate. Not modelled: events, block gas limit, system transactions, runtime-dependent handlers beyond their early failure paths (a compute runtime with one worker is registered, but no executor commitments are produced, so roothash commit/finalization paths end at their early failures).",
 }
